@@ -655,7 +655,7 @@ func (vc *VC) loopMods(hdr *ssa.BasicBlock) (map[string]bool, map[string]bool, b
 			}
 			if ms.FreshAll {
 				for c := range vc.compSort {
-					if c != "$alloc" && !strings.HasPrefix(c, "Gcalls_") && c != "Gerr_n" {
+					if c != "$alloc" && !strings.HasPrefix(c, "Gcalls_") && !strings.HasPrefix(c, "Gcnt_") && c != "Gerr_n" {
 						mods[c] = true
 					}
 				}
@@ -1543,6 +1543,9 @@ func (vc *VC) execReturn(b *ssa.BasicBlock, x *ssa.Return, h *Heap, reach string
 
 func (vc *VC) retEnv(results []Term, h *Heap) *Env {
 	env := vc.entryEnv()
+	if vc.fn.Signature.Recv() != nil && len(vc.fn.Params) > 0 {
+		env.vars["owner"] = vc.vals[vc.fn.Params[0]] // clauses inherited from a typed contract ("implements")
+	}
 	env.cur = h
 	env.old = vc.entryHeap
 	c := vc.contract
@@ -1645,7 +1648,7 @@ func (vc *VC) frameGoals(c *Contract, h *Heap) [][2]string {
 	a0 := vc.get(vc.entryHeap, "$alloc")
 	var out [][2]string
 	for _, comp := range sortedKeys(vc.compSortSet()) {
-		if comp == "$alloc" || strings.HasPrefix(comp, "Gcalls_") || strings.HasPrefix(comp, "Ghash_") || strings.HasPrefix(comp, "Gres_") || comp == "Gerr_n" {
+		if comp == "$alloc" || strings.HasPrefix(comp, "Gcalls_") || strings.HasPrefix(comp, "Ghash_") || strings.HasPrefix(comp, "Gres_") || strings.HasPrefix(comp, "Gcnt_") || comp == "Gerr_n" {
 			continue // ghost state is outside every frame
 		}
 		cur := vc.get(h, comp)
